@@ -8,6 +8,7 @@ package main
 //   harness areas                        list areas
 
 import (
+	"encoding/json"
 	"bufio"
 	"fmt"
 	"math/rand"
@@ -66,6 +67,11 @@ func main() {
 	case "unicode":
 		out.Flush()
 		dumpUnicode()
+	case "covers":
+		// the option-coverage relation derived from the tree under test (pinned as option_covers.json)
+		b, _ := json.MarshalIndent(derivedCovers(), "", " ")
+		out.Write(b)
+		fmt.Fprintln(out)
 	case "areas":
 		names := []string{}
 		for n := range areas {
